@@ -53,6 +53,8 @@ list_append = _op("list_append", 2)
 list_extend = _op("list_extend", 2)
 list_contains = F("list_contains", Val, Val, BoolS)
 list_index = F("list_index", Val, Val, IntS)      # least index of an element that is (or ==) the value
+list_count = F("list_count", Val, Val, IntS)      # number of elements that are (or ==) the value
+list_count_prefix = F("list_count_prefix", Val, Val, IntS, IntS)   # ... among the first i elements (definitional)
 list_remove = _op("list_remove", 2)
 list_pop_ok = F("list_pop_ok", Val, Val, BoolS)
 list_pop_item = _op("list_pop_item", 2)
@@ -106,6 +108,7 @@ LIST_OPS = {
     "contains": dict(result=lambda c, a: list_contains(c, a[0])),
     "remove": dict(raises=[(VE, lambda c, a: z3.Not(list_contains(c, a[0])))], new=lambda c, a: list_remove(c, a[0])),
     "index": dict(raises=[(VE, lambda c, a: z3.Not(list_contains(c, a[0])))], result=lambda c, a: list_index(c, a[0])),
+    "count": dict(result=lambda c, a: list_count(c, a[0])),
     "pop": dict(raises=[(IE, lambda c, a: z3.Not(list_pop_ok(c, a[0])))], result=lambda c, a: list_pop_item(c, a[0]),
                 new=lambda c, a: list_pop_rest(c, a[0])),
     "reverse": dict(new=lambda c, a: list_reverse(c)),
